@@ -66,6 +66,8 @@ type Exec struct {
 	exactDec      bool
 	pureCache     map[string]*Val
 	ifconv        int
+	noName        bool // specification evaluation: keep closed terms, bind no names
+	specSink      *State
 	t0            time.Time
 }
 
@@ -118,7 +120,7 @@ func (x *Exec) fresh(s *State, prefix, sort string) string {
 
 // name binds a (possibly large) term to a fresh constant.
 func (x *Exec) name(s *State, prefix, sort, term string) string {
-	if !strings.HasPrefix(term, "(") {
+	if !strings.HasPrefix(term, "(") || x.noName {
 		return term
 	}
 	if s.names == nil {
